@@ -94,7 +94,12 @@ impl Queries {
         V: VectorCommitment<H>,
     {
         assert!(domain_size.is_power_of_two(), "domain size must be a power of two");
-        assert!(num_queries > 0, "there must be at least one query");
+        // the number of queries comes from the (untrusted) proof
+        if num_queries == 0 {
+            return Err(DeserializationError::InvalidValue(format!(
+                "there must be at least one query, but the number of queries was {num_queries}"
+            )));
+        }
         assert!(values_per_query > 0, "a query must contain at least one value");
 
         // make sure we have enough bytes to read the expected number of queries
